@@ -86,3 +86,36 @@ def call(fn, *a, den=None, **kw):
         return res(fn(*a, **kw), den)
     except Exception as e:  # noqa: BLE001 - totality is one of the things being observed
         return exc(e)
+
+
+def pos(v, kind):
+    """(lat, lon) -> lattice projections (see spec/TV_CPR.tla)."""
+    if v is None:
+        return {"t": "n"}
+    if not (isinstance(v, (tuple, list)) and len(v) == 2):
+        return res(v)
+    lat, lon = float(v[0]), float(v[1])
+    if not (abs(lat) < 1000 and abs(lon) < 1000):
+        return {"t": "nan"}
+    base = 360.0 if kind == "air" else 90.0
+    latp = []
+    for n in (60, 59):
+        x = lat * n * 131072 / base
+        k = round(x)
+        latp.append([n, k, 1 if abs(x - k) < 1e-4 else 0])
+    lonp = []
+    for ni in range(1, 60):
+        x = lon * ni * 131072 / base
+        k = round(x)
+        if abs(x - k) < 1e-4:
+            lonp.append([ni, k])
+    return {"t": "pos", "lat26": round(lat * 67108864 / 360), "lon26": round(lon * 67108864 / 360),
+            "latp": latp, "lonp": lonp}
+
+
+def lat_limbs(lat):
+    """float latitude -> [sign, micro-degrees, 1e-15 degree] exactly (floor of |lat| * 1e15)."""
+    from fractions import Fraction
+    q = abs(Fraction(lat)) * 10 ** 15
+    n = q.numerator // q.denominator
+    return [-1 if lat < 0 else 1, n // 10 ** 9, n % 10 ** 9]
